@@ -157,7 +157,16 @@ func runC15(o *Out, r *rand.Rand, thorough bool, _ []string) {
 		}
 		return lens[r.Intn(len(lens))]
 	}
+	// the version-1 single-item decoder sees every hand-made and random stream too
+	pu, _ := bareProtocol(r, []uint8{0, 1})
+	nodeV1 := peerNode(r, []uint8{1}, nil)
+	pu.VerifVersionsCacheSet(nodeV1, 1)
 	emitDec := func(tag string, b []byte) {
+		if d, err := c15DecodeUtp(pu, nodeV1, b); err != nil {
+			o.Case("utpdec 1 "+bytesTerm(b), errOrPanic(err))
+		} else {
+			o.Case("utpdec 1 "+bytesTerm(b), "ok "+canon(d))
+		}
 		xs, err := c15DecodeContents(b)
 		o.Case("dec "+bytesTerm(b), decResult(xs, err))
 		c, rest, err := c15DecodeSingle(b)
@@ -246,9 +255,10 @@ func runC15(o *Out, r *rand.Rand, thorough bool, _ []string) {
 	for _, e := range edges {
 		emitDec("edge", e)
 	}
-	// 2b. crafted varints: small lengths encoded in 1..6 bytes (non-minimal forms), with spare high bits of the
-	// last byte set (32-bit overflow whose low bits are a plausible length), followed by length-1, length, length+1 bytes
-	for k := 1; k <= 6; k++ {
+	// 2b. crafted varints: small lengths encoded in 1..10 bytes (non-minimal forms; more than 5 bytes is more than a 32-bit
+	// length can take, whatever the surplus bits are), with spare high bits of the last byte set (32-bit overflow whose low
+	// bits are a plausible length), followed by length-1, length, length+1 bytes
+	for k := 1; k <= 10; k++ {
 		for _, v := range []int{0, 1, 2, 5, 17} {
 			for _, hi := range []byte{0x00, 0x10, 0x20, 0x40, 0x70, 0x08} {
 				hdr := make([]byte, k)
